@@ -85,6 +85,11 @@ def items(tier: str, seed: int) -> list[dict]:
             add(doc=doc, phases=phases)
         if tier != "quick" or doc == "unit2_broken_last":
             add(doc=doc, phases=["fuzzing"], workers=2, p=b["preemptions_worker_stages"])
+    # two pre-emptions on the smallest runs (one worker): the consumer's queue time-out fires while the worker is active AND
+    # the worker then finishes before the consumer looks at it - the events it queued in between must not be lost
+    add(doc="one_b", behaviour="all500", p=2, max_examples=1)
+    add(doc="one_b", behaviour="ok", p=2, max_examples=1)
+    add(doc="one_a", behaviour="all500", p=2, max_examples=1)
     add(doc="link", phases=["stateful"], behaviour="ok")
     add(doc="link", phases=["stateful"], behaviour="fail_get_user")
     add(doc="link", phases=["examples", "coverage", "fuzzing", "stateful"], behaviour="fail_get_user")
